@@ -5,8 +5,10 @@ blockMesh hexahedron convention (tables regenerated from the source on every run
 -/
 import CBV.Model.C10
 import CBV.Lemmas.C10List
+import CBV.Lemmas.C10Geo
 import Mathlib.Tactic.Ring
 import Mathlib.Tactic.Linarith
+import Mathlib.Tactic.FieldSimp
 import Mathlib.Algebra.Order.Field.Rat
 
 namespace CBV.C10
@@ -114,21 +116,6 @@ theorem T_C10_normal_shift (p0 p1 p2 p3 : V3) :
 
 /-! ### addressing against the blockMesh hexahedron convention -/
 
-/-- blockMesh corner numbering: corner `c` has local coordinates (x, y, z) ∈ {0,1}³ -/
-def coord (c : Nat) : Bool × Bool × Bool :=
-  (c % 4 == 1 || c % 4 == 2, c % 4 == 2 || c % 4 == 3, c ≥ 4)
-
-/-- the defining coordinate of each named side -/
-def onSide (side : String) (c : Nat) : Bool :=
-  match side with
-  | "bottom" => !(coord c).2.2
-  | "top" => (coord c).2.2
-  | "left" => !(coord c).1
-  | "right" => (coord c).1
-  | "front" => !(coord c).2.1
-  | "back" => (coord c).2.1
-  | _ => false
-
 /-- every entry of the generated `FACE_MAP` lists exactly the 4 corners of that side of the hexahedron -/
 theorem T_C10_facemap :
     CBV.Gen.faceMap.map (·.1) = ["bottom", "top", "left", "right", "front", "back"] ∧
@@ -156,11 +143,6 @@ theorem T_C10_patch_at_corners (name : String) :
     simp only [List.mem_range] at hc <;>
     (have : c = 0 ∨ c = 1 ∨ c = 2 ∨ c = 3 ∨ c = 4 ∨ c = 5 ∨ c = 6 ∨ c = 7 := by omega) <;>
     rcases this with h | h | h | h | h | h | h | h <;> subst h <;> rfl
-
-/-- two corners are joined by an edge of the hexahedron iff they differ in exactly one coordinate -/
-def isEdge (c1 c2 : Nat) : Bool :=
-  let a := coord c1; let b := coord c2
-  ((if a.1 != b.1 then 1 else 0) + (if a.2.1 != b.2.1 then 1 else 0) + (if a.2.2 != b.2.2 then 1 else 0)) == 1
 
 /-- `project_edge c1 c2` stores its datum in a slot that `Operation.edges` reads back as the edge
     {c1, c2}; pairs that are not edges of the hexahedron are rejected -/
@@ -290,5 +272,350 @@ theorem T_C10_remove_edges_empty (o : Op) (b : Bool) : o.removeEdges b [] = o :=
 example : (((({} : Op).setEdgeSlot (.bottom 0) ["g"]).setEdgeSlot (.side 2) ["g"]).view.edges)
     = [(0, 1, ["g"]), (2, 6, ["g"])] := by decide
 
+/-! ### Round 6: the code of the addressing path against what the source says literally (tables regenerated with
+    `ast` from the current source, `cbv/tables/c10.py`) -/
+
+/-- the loop that fills `tools.edge_map`: same insertions, same order, same `EdgeLocation` arguments -/
+theorem T_C10_tie_edge_map : edgeMapInserts = CBV.Gen.c10EdgeMapInserts := by decide
+
+/-- `EdgeLocation.start_corner` on all 64 corner pairs (value or `CornerPairError`) -/
+theorem T_C10_tie_start_corner :
+    CBV.Gen.c10StartCorner.length = 64 ∧
+    ∀ e ∈ CBV.Gen.c10StartCorner, startCorner e.1 e.2.1 = (if e.2.2 < 0 then none else some e.2.2.toNat) := by decide
+
+/-- the modelled `edge_map[c1][c2]` (construction loop + symmetric storage + `start_corner`) answers as the imported
+    `tools.edge_map` does, for all 64 ordered pairs, including which pairs have no entry -/
+theorem T_C10_edge_loc_model :
+    ∀ c1 ∈ List.range 8, ∀ c2 ∈ List.range 8, edgeLoc c1 c2 = edgeLocTable c1 c2 := by decide
+
+/-- `Frame.valid_pairs` are the sets of `constants.EDGE_PAIRS` -/
+theorem T_C10_tie_valid_pairs :
+    CBV.Gen.c10FrameValidPairs = CBV.Gen.edgePairs.map (fun p => [min p.1 p.2, max p.1 p.2]) := by decide
+
+/-- `Operation.edges`: the index expressions of its three `add_beam` loops are `Slot.corners` -/
+theorem T_C10_tie_op_edges :
+    CBV.Gen.c10OpEdges =
+      [("bottom_face.edges", (List.range 4).map (fun i => (Slot.bottom i).corners)),
+       ("top_face.edges", (List.range 4).map (fun i => (Slot.top i).corners)),
+       ("side_edges", (List.range 4).map (fun i => (Slot.side i).corners))] := by decide
+
+def guardRange : List Int := [-2, -1, 0, 1, 2, 3, 4, 5, 6, 7, 8, 9, 10]
+def edgeGuardRange : List Int := [-1, 0, 1, 2, 3, 4, 5, 6, 7, 8, 9]
+
+/-- the refusing guards of `add_side_edge`, `Face.add_edge`, `Face.project_edge`, `project_corner`, `project_edge`
+    evaluated from the source on -2..10 are the model's guards -/
+theorem T_C10_tie_guards :
+    CBV.Gen.c10Guards =
+      [("Operation.add_side_edge", guardRange.map (fun c => (c, guardCorner4 c))),
+       ("Face.add_edge", guardRange.map (fun c => (c, guardCorner4 c))),
+       ("Face.project_edge", guardRange.map (fun c => (c, guardCorner4 c))),
+       ("Operation.project_corner", guardRange.map (fun c => (c, guardCorner8 c)))] ∧
+    CBV.Gen.c10ProjectEdgeGuard =
+      edgeGuardRange.flatMap (fun a => edgeGuardRange.map (fun b => (a, b, guardEdge a b))) := by decide
+
+/-- `project_corner`: which face's point list and which index, for every corner -/
+theorem T_C10_tie_project_corner :
+    CBV.Gen.c10ProjectCorner = (List.range 8).map (fun c =>
+      (c, if (cornerTarget c).1 then "top_face.points" else "bottom_face.points", (cornerTarget c).2)) := by decide
+
+/-- `get_patches_at_corner`: which face's patch and which two entries of `side_patches`, for every corner -/
+theorem T_C10_tie_patches_at_corner :
+    CBV.Gen.c10PatchesAtCorner = (List.range 8).map (fun c =>
+      (c, if (cornerSources c).1 then "bottom_face.patch_name" else "top_face.patch_name",
+        [(cornerSources c).2.1, (cornerSources c).2.2])) := by decide
+
+/-- `project_side` / `Face.project`: the statements of the `if edges:` and `if points:` bodies, in order, with their
+    index expressions evaluated for every `index_1`, are the steps the model executes -/
+theorem T_C10_tie_project_side :
+    CBV.Gen.c10ProjectSideEdges = (List.range 4).map (fun i => (sideStepsE i).map Step.descr) ∧
+    CBV.Gen.c10ProjectSidePoints = (List.range 4).map (fun i => (sideStepsP i).map Step.descr) ∧
+    CBV.Gen.c10ProjectSideFace = (List.range 4).map (fun i => ("side_projects", i)) ∧
+    CBV.Gen.c10FaceProject =
+      [("edges", "project_edge", (faceStepsE true).map (fun s => (s.descr.2).getD 0 9)),
+       ("points", "points", (faceStepsP true).map (fun s => (s.descr.2).getD 0 9))] := by decide
+
+/-- `Face.invert` / `shift` / `reorient`: the literal index tuple, the order of the in-place reversals, the effect of
+    `deque(range(4)).rotate(count)` for count = -9..9, the lists that are re-indexed, the argument handed to `shift` -/
+theorem T_C10_tie_face_literals :
+    (Face.invert ⟨[0, 1, 2, 3], [10, 11, 12, 13]⟩ : Face Nat Nat).edges = pick [13, 12, 11, 10] CBV.Gen.c10InvertIdx ∧
+    CBV.Gen.c10InvertStmts = ["points.reverse", "edges.reverse"] ∧
+    (∀ e ∈ CBV.Gen.c10ShiftIdx, shiftIdx e.1 = e.2) ∧
+    CBV.Gen.c10ShiftLists = ["points", "edges"] ∧
+    CBV.Gen.c10ReorientShift = (List.range 4).map (fun (j : Nat) => -(j : Int)) := by decide
+
+/-- `shiftIdx` has period 4, so the 19 counts read from the source cover every residue: the model's `shift` agrees
+    with `deque.rotate` for every count, provided `deque.rotate` itself has period 4 (python semantics, validated) -/
+theorem T_C10_shift_period (k : Int) : shiftIdx (k + 4) = shiftIdx k := by
+  unfold shiftIdx
+  apply List.map_congr_left
+  intro i _
+  congr 1
+  omega
+
+/-- the sides inverted by `get_normal_face` and by `Connector` (both operations) are the model's `invertedSides`;
+    `get_normal_face` takes the first maximum, `get_closest_side` the first minimum; `get_face` and `Side` read
+    `FACE_MAP`; `get_all_faces` goes through the sides in the order of `OrientType` -/
+theorem T_C10_tie_sides_inverted :
+    invertedSides = CBV.Gen.c10NormalFaceInverted ∧ (∀ l ∈ CBV.Gen.c10ConnectorInverted, l = invertedSides) ∧
+    CBV.Gen.c10ConnectorInverted.length = 2 ∧
+    CBV.Gen.c10NormalFacePick = "argmax" ∧ CBV.Gen.c10ClosestSidePick = "argmin" ∧
+    (∀ e ∈ CBV.Gen.c10FaceTableUse, e.2 = "FACE_MAP") ∧ CBV.Gen.c10FaceTableUse.length = 2 ∧
+    CBV.Gen.c10OrientOrder.Nodup ∧ (∀ s, s ∈ CBV.Gen.c10OrientOrder ↔ s ∈ sixSides) := by
+  refine ⟨by decide, by decide, by decide, by decide, by decide, by decide, by decide, by decide, ?_⟩
+  intro s
+  simp only [CBV.Gen.c10OrientOrder, sixSides, List.mem_cons, List.not_mem_nil, or_false]
+  tauto
+
+/-- `Revolve` puts its `Angle` on side edges 0..3; `Wedge` names top and bottom and its inner / outer patch methods
+    address "front" / "back" -/
+theorem T_C10_tie_revolve_wedge :
+    revolveSideEdges = CBV.Gen.c10RevolveSideEdges ∧ wedgePatches = CBV.Gen.c10WedgePatches ∧
+    ∀ e ∈ CBV.Gen.c10WedgeNamed, wedgeNamed e.1 = some e.2 := by decide
+
+/-! ### the tables of `util/constants.py` against each other -/
+
+/-- coordinate `a` (0 = x, 1 = y, 2 = z) of a corner -/
+def coordN (c a : Nat) : Bool := if a = 0 then (coord c).1 else if a = 1 then (coord c).2.1 else (coord c).2.2
+
+/-- `EDGE_PAIRS` is the concatenation of `AXIS_PAIRS`; what `Frame.add_beam` accepts is exactly the set of the 12
+    edges of the hexahedron (all 64 ordered pairs) -/
+theorem T_C10_edge_pairs :
+    CBV.Gen.edgePairs = CBV.Gen.axisPairs.flatten ∧ CBV.Gen.edgePairs.length = 12 ∧
+    ∀ c1 ∈ List.range 8, ∀ c2 ∈ List.range 8, validPair c1 c2 = isEdge c1 c2 := by decide
+
+/-- `AXIS_PAIRS[a]` are the four edges along axis `a`, each written from the corner with coordinate 0 to the corner
+    with coordinate 1 (so `Frame.get_axis_beams` and the wires of an axis all run in the positive direction) -/
+theorem T_C10_axis_pairs :
+    CBV.Gen.axisPairs.length = 3 ∧
+    ∀ a ∈ List.range 3, ((CBV.Gen.axisPairs.getD a []).length = 4 ∧ (CBV.Gen.axisPairs.getD a []).Nodup ∧
+      ∀ p ∈ CBV.Gen.axisPairs.getD a [], coordN p.1 a = false ∧ coordN p.2 a = true ∧
+        ∀ b ∈ List.range 3, b ≠ a → coordN p.1 b = coordN p.2 b) := by decide
+
+/-- corners `a`, `b` are neighbours in the cyclic order of a quad -/
+def cyclicAdj (q : List Nat) (a b : Nat) : Bool :=
+  (List.range 4).any (fun i => (q.getD i 9 == a && q.getD ((i + 1) % 4) 9 == b) || (q.getD i 9 == b && q.getD ((i + 1) % 4) 9 == a))
+
+/-- every edge pair is an edge (two consecutive corners) of exactly two sides of `FACE_MAP`, every side has exactly
+    four of the edge pairs, and the four consecutive corner pairs of every side are edges of the hexahedron (a side
+    quad never runs along a diagonal) -/
+theorem T_C10_edge_two_sides :
+    (∀ p ∈ CBV.Gen.edgePairs, (CBV.Gen.faceMap.filter (fun e => cyclicAdj e.2 p.1 p.2)).length = 2) ∧
+    (∀ e ∈ CBV.Gen.faceMap, (CBV.Gen.edgePairs.filter (fun p => cyclicAdj e.2 p.1 p.2)).length = 4 ∧
+      ∀ i ∈ List.range 4, isEdge (e.2.getD i 9) (e.2.getD ((i + 1) % 4) 9) = true) := by decide
+
+/-- the side edges of `SIDES_MAP[i]`: `edge_map` stores the vertical edge `i → i+4` under the name of the side whose
+    quad contains it and the next vertical edge -/
+theorem T_C10_side_names_of_vertical_edges :
+    ∀ i ∈ List.range 4, (edgeLoc i (i + 4)).map (·.1) = some (CBV.Gen.sidesMap.getD i "?") ∧
+      cyclicAdj ((sideCorners (CBV.Gen.sidesMap.getD i "?")).getD []) i (i + 4) = true ∧
+      cyclicAdj ((sideCorners (CBV.Gen.sidesMap.getD i "?")).getD []) ((i + 1) % 4) ((i + 1) % 4 + 4) = true := by decide
+
+/-! ### faces by side name on the points of an operation -/
+
+/-- `get_face(side)`: point `i` of the returned face is the operation's point number `FACE_MAP[side][i]`, for every
+    operation (any eight points) and each of the six names; any other name is refused -/
+theorem T_C10_get_face (o : GOp) :
+    (∀ e ∈ CBV.Gen.faceMap, o.getFace e.1 = some (e.2.map (fun i => o.pts.getD i V3.zero))) ∧
+    ∀ s, s ∉ sixSides → o.getFace s = none := by
+  constructor
+  · intro e he
+    simp only [CBV.Gen.faceMap, List.mem_cons, List.not_mem_nil, or_false] at he
+    rcases he with h | h | h | h | h | h <;> subst h <;> rfl
+  · intro s hs
+    simp only [sixSides, List.mem_cons, List.not_mem_nil, or_false, not_or] at hs
+    obtain ⟨h1, h2, h3, h4, h5, h6⟩ := hs
+    simp [GOp.getFace, CBV.Gen.faceMap, List.lookup, beq_false_of_ne h1, beq_false_of_ne h2, beq_false_of_ne h3,
+      beq_false_of_ne h4, beq_false_of_ne h5, beq_false_of_ne h6]
+
+/-- `get_closest_side`: the side it names is one of the faces of `get_all_faces`, and the centre of that face is at
+    least as close to the point as the centre of every face (first minimum: strictly closer than every earlier one) -/
+theorem T_C10_closest_side (o : GOp) (p : V3) (hne : o.allFaces ≠ []) :
+    ∃ f, (o.closestSide p, f) ∈ o.allFaces ∧
+      ∀ g ∈ o.allFaces, V3.norm2 (p - avg f) ≤ V3.norm2 (p - avg g.2) := by
+  obtain ⟨v, hv, hall, _⟩ := argmin_spec (o.allFaces.map (fun f => V3.norm2 (p - avg f.2))) (by simpa using hne)
+  rw [List.getElem?_map] at hv
+  cases hf : o.allFaces[argmin (o.allFaces.map (fun f => V3.norm2 (p - avg f.2)))]? with
+  | none => rw [hf] at hv; simp at hv
+  | some sf =>
+    rw [hf] at hv
+    simp only [Option.map_some, Option.some.injEq] at hv
+    refine ⟨sf.2, ?_, ?_⟩
+    · have : o.closestSide p = sf.1 := by
+        simp only [GOp.closestSide, List.getD_eq_getElem?_getD, hf, Option.getD_some]
+      rw [this]
+      exact List.mem_of_getElem? hf
+    · intro g hg
+      rw [hv]
+      exact hall _ (List.mem_map.mpr ⟨g, hg, rfl⟩)
+
+/-- non-vacuity: the unit cube, a point above it -/
+example : (Aff.hex ⟨⟨1, 0, 0⟩, ⟨0, 1, 0⟩, ⟨0, 0, 1⟩, ⟨0, 0, 0⟩⟩).closestSide ⟨1/2, 1/3, 2⟩ = "top" := by decide +kernel
+
+/-- `get_normal_face`: the face it returns is one of the six candidates (sides of `invertedSides` inverted) and no
+    candidate has a larger cosine between its normal and the direction to the viewer -/
+theorem T_C10_normal_face (o : GOp) (p : V3) (hne : o.allFaces ≠ []) :
+    o.normalFace p ∈ o.normalCandidates ∧
+      ∀ c ∈ o.normalCandidates,
+        cosSq (p - avg c.2) (normalOf c.2) ≤ cosSq (p - avg (o.normalFace p).2) (normalOf (o.normalFace p).2) := by
+  have hne' : o.normalCandidates ≠ [] := by simpa [GOp.normalCandidates] using hne
+  obtain ⟨v, hv, hall, _⟩ :=
+    argmax_spec (o.normalCandidates.map (fun c => cosSq (p - avg c.2) (normalOf c.2))) (by simpa using hne')
+  rw [List.getElem?_map] at hv
+  cases hf : o.normalCandidates[argmax (o.normalCandidates.map (fun c => cosSq (p - avg c.2) (normalOf c.2)))]? with
+  | none => rw [hf] at hv; simp at hv
+  | some sf =>
+    rw [hf] at hv
+    simp only [Option.map_some, Option.some.injEq] at hv
+    have : o.normalFace p = sf := by
+      simp only [GOp.normalFace, List.getD_eq_getElem?_getD, hf, Option.getD_some]
+    rw [this]
+    refine ⟨List.mem_of_getElem? hf, ?_⟩
+    intro c hc
+    rw [hv]
+    exact hall _ (List.mem_map.mpr ⟨c, hc, rfl⟩)
+
+/-- `cosSq` orders like the cosine: for vectors of lengths `s₁, s₂ > 0` (`sᵢ² = denᵢ`) the quotients `dᵢ / sᵢ` compare
+    as their signed squares `sgn(dᵢ)·dᵢ² / denᵢ` do — the model's rational comparison decides what the code's
+    comparison of `dot(unit_vector(·), normal)` decides in exact arithmetic -/
+theorem T_C10_cos_order (d1 d2 s1 s2 : Rat) (h1 : 0 < s1) (h2 : 0 < s2) :
+    (d1 / s1 ≤ d2 / s2) ↔
+      ((if 0 ≤ d1 then d1 * d1 else -(d1 * d1)) / (s1 * s1) ≤ (if 0 ≤ d2 then d2 * d2 else -(d2 * d2)) / (s2 * s2)) := by
+  have key : ∀ x : Rat, ∀ s : Rat, 0 < s →
+      (if 0 ≤ x then x * x else -(x * x)) / (s * s) = (if 0 ≤ x / s then (x / s) * (x / s) else -((x / s) * (x / s))) := by
+    intro x s hs
+    have hiff : 0 ≤ x / s ↔ 0 ≤ x := by
+      constructor
+      · intro h; have := mul_nonneg h (le_of_lt hs); rwa [div_mul_cancel₀ _ (ne_of_gt hs)] at this
+      · intro h; exact div_nonneg h (le_of_lt hs)
+    by_cases hx : 0 ≤ x
+    · rw [if_pos hx, if_pos (hiff.mpr hx)]; field_simp
+    · rw [if_neg hx, if_neg (fun h => hx (hiff.mp h))]; field_simp
+  rw [key d1 s1 h1, key d2 s2 h2]
+  generalize d1 / s1 = a
+  generalize d2 / s2 = b
+  by_cases ha : 0 ≤ a <;> by_cases hb : 0 ≤ b <;> simp only [ha, hb, if_true, if_false]
+  · constructor
+    · intro h; nlinarith
+    · intro h; by_contra hc; replace hc := not_le.mp hc; nlinarith
+  · replace hb := not_le.mp hb
+    constructor
+    · intro h; linarith
+    · intro h; nlinarith [mul_self_nonneg a, mul_pos_of_neg_of_neg hb hb]
+  · replace ha := not_le.mp ha
+    constructor
+    · intro _; nlinarith [mul_self_nonneg b, mul_pos_of_neg_of_neg ha ha]
+    · intro _; linarith
+  · replace ha := not_le.mp ha; replace hb := not_le.mp hb
+    constructor
+    · intro h; nlinarith
+    · intro h; by_contra hc; replace hc := not_le.mp hc; nlinarith
+
+example : (2 : Rat) / 3 ≤ 4 / 5 ↔
+    ((if (0 : Rat) ≤ 2 then (2 : Rat) * 2 else -(2 * 2)) / (3 * 3) ≤ (if (0 : Rat) ≤ 4 then (4 : Rat) * 4 else -(4 * 4)) / (5 * 5)) :=
+  T_C10_cos_order 2 4 3 5 (by norm_num) (by norm_num)
+
+/-! ### the corner order of `FACE_MAP` and the direction of the normals -/
+
+/-- for **every affine image of the unit cube** (columns `u v w`, any origin): the face obtained by side name has its
+    raw normal (the vector `Face.normal` normalises) pointing out of the block exactly when the side is not one of
+    `invertedSides`, with the same magnitude for all six: `n · 8(c_face − c_block) = ±128 · det` -/
+theorem T_C10_outward_affine (A : Aff) :
+    ∀ e ∈ CBV.Gen.faceMap, ∃ f, A.hex.getFace e.1 = some f ∧
+      outwardRaw A.hex f = (if e.1 ∈ invertedSides then -128 else 128) * A.det := by
+  intro e he
+  simp only [CBV.Gen.faceMap, List.mem_cons, List.not_mem_nil, or_false] at he
+  rcases he with h | h | h | h | h | h <;> subst h <;>
+    refine ⟨_, (T_C10_get_face A.hex).1 _ (by decide), ?_⟩ <;>
+    simp [hex_pts, outwardRaw, normalOf, normalRaw, vsum, Aff.app, Aff.det, V3.dot, V3.zero, invertedSides] <;>
+    ring
+
+/-- hence on every right-handed block (`det > 0`) **all six candidates of `get_normal_face` / `Connector` have outward
+    normals** — the three sides the code inverts are exactly the three whose `FACE_MAP` order is clockwise seen from
+    outside; on an inside-out block (`det < 0`) all six point inwards -/
+theorem T_C10_candidates_outward (A : Aff) (hdet : 0 < A.det) :
+    A.hex.normalCandidates.length = 6 ∧ ∀ c ∈ A.hex.normalCandidates, 0 < outwardRaw A.hex c.2 := by
+  have hall : A.hex.allFaces = CBV.Gen.c10OrientOrder.map (fun s =>
+      (s, ((CBV.Gen.faceMap.lookup s).getD []).map (fun i => A.hex.pts.getD i V3.zero))) := by
+    simp [GOp.allFaces, GOp.getFace, CBV.Gen.c10OrientOrder, CBV.Gen.faceMap, List.lookup]
+  constructor
+  · simp [GOp.normalCandidates, hall, CBV.Gen.c10OrientOrder]
+  · intro c hc
+    simp only [GOp.normalCandidates, hall, CBV.Gen.c10OrientOrder, List.map_cons, List.map_nil, List.mem_cons,
+      List.not_mem_nil, or_false] at hc
+    have hd : 0 < V3.dot (V3.cross A.u A.v) A.w := hdet
+    rcases hc with h | h | h | h | h | h <;> subst h <;>
+      simp [hex_pts, outwardRaw, normalOf, normalRaw, vsum, Aff.app, V3.dot, V3.zero, invertedSides, CBV.Gen.faceMap,
+        List.lookup] <;>
+      simp only [V3.dot, V3.cross] at hd <;>
+      nlinarith [hd]
+
+/-- non-vacuity and the combinatorial statement on the unit cube itself (`det = 1`) -/
+example : 0 < (Aff.det ⟨⟨1, 0, 0⟩, ⟨0, 1, 0⟩, ⟨0, 0, 1⟩, ⟨0, 0, 0⟩⟩) := by decide +kernel
+example : 0 < (Aff.det ⟨⟨2, 1/2, 0⟩, ⟨-1/3, 1, 1/5⟩, ⟨0, 1/7, 3⟩, ⟨5, -1, 2⟩⟩) := by decide +kernel
+
+/-- `Box(p, q)`: whatever the order of the two given corners, the eight points are the affine image of the unit cube
+    with the *positive* edge vectors along x, y, z from the minimum corner: corner numbering follows the blockMesh
+    sketch and the block is right-handed as soon as the two corners differ in every coordinate -/
+theorem T_C10_box (p q : V3) :
+    let A : Aff := ⟨⟨max p.x q.x - min p.x q.x, 0, 0⟩, ⟨0, max p.y q.y - min p.y q.y, 0⟩, ⟨0, 0, max p.z q.z - min p.z q.z⟩,
+      ⟨min p.x q.x, min p.y q.y, min p.z q.z⟩⟩
+    boxPoints p q = A.hex.pts ∧ (p.x ≠ q.x → p.y ≠ q.y → p.z ≠ q.z → 0 < A.det) := by
+  intro A
+  constructor
+  · rw [hex_pts]
+    simp only [boxPoints, List.map_cons, List.map_nil, List.cons_append, List.nil_append, A, Aff.app]
+    refine List.cons_eq_cons.mpr ⟨?_, List.cons_eq_cons.mpr ⟨?_, List.cons_eq_cons.mpr ⟨?_, List.cons_eq_cons.mpr ⟨?_,
+      List.cons_eq_cons.mpr ⟨?_, List.cons_eq_cons.mpr ⟨?_, List.cons_eq_cons.mpr ⟨?_, List.cons_eq_cons.mpr ⟨?_, rfl⟩⟩⟩⟩⟩⟩⟩⟩ <;>
+      apply V3.ext' <;> simp <;> ring
+  · intro hx hy hz
+    have h1 : 0 < max p.x q.x - min p.x q.x := by
+      rcases lt_or_gt_of_ne hx with h | h
+      · rw [max_eq_right (le_of_lt h), min_eq_left (le_of_lt h)]; linarith
+      · rw [max_eq_left (le_of_lt h), min_eq_right (le_of_lt h)]; linarith
+    have h2 : 0 < max p.y q.y - min p.y q.y := by
+      rcases lt_or_gt_of_ne hy with h | h
+      · rw [max_eq_right (le_of_lt h), min_eq_left (le_of_lt h)]; linarith
+      · rw [max_eq_left (le_of_lt h), min_eq_right (le_of_lt h)]; linarith
+    have h3 : 0 < max p.z q.z - min p.z q.z := by
+      rcases lt_or_gt_of_ne hz with h | h
+      · rw [max_eq_right (le_of_lt h), min_eq_left (le_of_lt h)]; linarith
+      · rw [max_eq_left (le_of_lt h), min_eq_right (le_of_lt h)]; linarith
+    simp only [Aff.det, A, V3.dot, V3.cross]
+    have := mul_pos (mul_pos h1 h2) h3
+    nlinarith [this]
+
+example : boxPoints ⟨1, 0, 2⟩ ⟨0, 3, 0⟩ =
+    [⟨0, 0, 0⟩, ⟨1, 0, 0⟩, ⟨1, 3, 0⟩, ⟨0, 3, 0⟩, ⟨0, 0, 2⟩, ⟨1, 0, 2⟩, ⟨1, 3, 2⟩, ⟨0, 3, 2⟩] := by decide +kernel
+
+/-- `Extrude(base, vector)`: corner `i + 4` is corner `i` displaced by the vector, for every base face -/
+theorem T_C10_extrude (a b c d v : V3) :
+    extrudePoints [a, b, c, d] v = [a, b, c, d, a + v, b + v, c + v, d + v] := rfl
+
+/-- `project_corner`: refused exactly outside 0..7; otherwise it touches the operation's point `corner` only
+    (`bottom_face.points + top_face.points` numbering) -/
+theorem T_C10_project_corner_guarded (o : Op) (c : Int) (l : String) :
+    o.projectCorner? c l = if 0 ≤ c ∧ c ≤ 7 then some (o.projectCorner c.toNat l) else none := by
+  unfold Op.projectCorner? guardCorner8 cornerTarget Op.projectPoint
+  by_cases h : 0 ≤ c ∧ c ≤ 7
+  · obtain ⟨h0, h7⟩ := h
+    have hg : (decide (c < 0) || decide (c > 7)) = false := by simp; omega
+    simp only [hg, Bool.false_eq_true, if_false, h0, h7, and_self, if_true]
+    by_cases h3 : c.toNat > 3
+    · simp only [h3, if_true]; congr 2; omega
+    · simp only [h3, if_false, Bool.false_eq_true]
+  · have hg : (decide (c < 0) || decide (c > 7)) = true := by simp; omega
+    simp [hg, h]
+
+/-- a `Revolve` has its data on the four vertical edges `i → i+4`; projecting one of those edges replaces the datum -/
+example : ((({} : Op).revolveInit).view.others) = [(0, 4, "edges.Angle"), (1, 5, "edges.Angle"), (2, 6, "edges.Angle"), (3, 7, "edges.Angle")] := by decide
+example : (((({} : Op).revolveInit).projectEdge 6 2 "g").map (fun o => (o.view.others, o.view.edges))) =
+    some ([(0, 4, "edges.Angle"), (1, 5, "edges.Angle"), (3, 7, "edges.Angle")], [(2, 6, ["g"])]) := by decide
+
+/-- a `Wedge`: its two named patches sit on the top and the bottom quad; inner / outer are front / back -/
+theorem T_C10_wedge (name : String) :
+    (({} : Op).wedgeInit.map (fun o => o.view.patches)) = some [("wedge_back", [0, 1, 2, 3]), ("wedge_front", [4, 5, 6, 7])] ∧
+    (do let s ← wedgeNamed "set_inner_patch"; let o ← ({} : Op).setPatch s name; some o.view.patches) = some [(name, [4, 5, 1, 0])] ∧
+    (do let s ← wedgeNamed "set_outer_patch"; let o ← ({} : Op).setPatch s name; some o.view.patches) = some [(name, [7, 6, 2, 3])] := by
+  refine ⟨by decide, rfl, rfl⟩
 
 end CBV.C10
